@@ -1,0 +1,78 @@
+//! Verification hooks, compiled only with `--cfg icy_engine_verif`.
+//!
+//! A process-global gate that lets a test harness hold every background sixel decode
+//! right before it starts parsing and release the decodes one by one in any order.
+//! With the gate disabled (the default) nothing waits.
+
+use std::ops::{Index, RangeFrom};
+use std::sync::{Condvar, Mutex};
+
+struct Gate {
+    enabled: bool,
+    next_ticket: usize,
+    released: Vec<usize>,
+}
+
+static GATE: Mutex<Gate> = Mutex::new(Gate {
+    enabled: false,
+    next_ticket: 0,
+    released: Vec::new(),
+});
+static CHANGED: Condvar = Condvar::new();
+
+/// Enables or disables the gate and forgets all tickets.
+pub fn enable(on: bool) {
+    let mut g = GATE.lock().unwrap();
+    g.enabled = on;
+    g.next_ticket = 0;
+    g.released.clear();
+    CHANGED.notify_all();
+}
+
+/// Called on the parser thread when a decode is spawned: tickets number the decodes in arrival order.
+pub fn next_ticket() -> usize {
+    let mut g = GATE.lock().unwrap();
+    let t = g.next_ticket;
+    g.next_ticket += 1;
+    t
+}
+
+/// Lets the decode holding `ticket` run.
+pub fn release(ticket: usize) {
+    let mut g = GATE.lock().unwrap();
+    if !g.released.contains(&ticket) {
+        g.released.push(ticket);
+    }
+    CHANGED.notify_all();
+}
+
+/// Called on the decode thread: blocks until the ticket is released (or the gate is disabled).
+pub fn wait(ticket: usize) {
+    let mut g = GATE.lock().unwrap();
+    while g.enabled && !g.released.contains(&ticket) {
+        g = CHANGED.wait(g).unwrap();
+    }
+}
+
+/// A `String` whose tail slice (`&s[i..]`) waits at the gate first. `execute_dcs` moves the DCS string
+/// into the decode closure and slices it there, so shadowing that string with a `GatedString` holds
+/// the decode thread before it parses anything while the spawn / queue code stays untouched.
+pub struct GatedString {
+    inner: String,
+    ticket: usize,
+}
+
+impl GatedString {
+    pub fn new(inner: String) -> Self {
+        Self { inner, ticket: next_ticket() }
+    }
+}
+
+impl Index<RangeFrom<usize>> for GatedString {
+    type Output = str;
+
+    fn index(&self, index: RangeFrom<usize>) -> &str {
+        wait(self.ticket);
+        &self.inner[index]
+    }
+}
